@@ -89,6 +89,7 @@ func aliased(n int) string {
 }
 
 var mergeFirst, mergeEnd int // catalogue[mergeFirst:mergeEnd] = the merge family
+var mergeVarFirst int        // varSets[mergeVarFirst:mergeVarFirst+5] = the variable sets of the merge family
 
 func init() {
 	mergeFirst = len(catalogue)
@@ -99,6 +100,7 @@ func init() {
 		catalogue = append(catalogue, qtext{fmt.Sprintf("query G($a: Boolean = false, $b: Boolean = true) { node { child { %s} child @include(if: $a) { a: id } child @skip(if: $b) { b: op } } }", aliased(n)), []string{"G"}, nil})
 		catalogue = append(catalogue, qtext{fmt.Sprintf("query G($a: Boolean = false, $b: Boolean = false) { node { %s} ...X ... on Query @include(if: $b) { node { b: op } } } fragment X on Query { node @include(if: $a) { a: id } }", aliased(n)), []string{"G"}, nil})
 	}
+	mergeVarFirst = len(varSets)
 	varSets = append(varSets,
 		[]kvp{{"a", `true`}},
 		[]kvp{{"b", `true`}},
@@ -107,6 +109,7 @@ func init() {
 		[]kvp{{"a", `true`}, {"b", `false`}})
 	mergeEnd = len(catalogue)
 	initIntro() // intro.go: the introspection and nullability families come after the merge family
+	initFail()  // fail.go: the failure family comes last
 }
 
 func mergeTexts() []string {
@@ -240,6 +243,7 @@ func directedGroups() []group {
 		pair("post-vs-invalid", p, jsonPost(qF, "", nil), postRaw('S', `{"query":"{ op vars raw }","operationName":"A"`))
 		pair("form-vs-graphql", p, formJSON(M("query", S(qF)), M("operationName", S("F"))), graphqlReq(qF))
 	}
+	failureGroups(pair) // fail.go: a request that has failed somewhere stands still while another one fails elsewhere
 	// three in flight: two parked at different points, released last-parked first
 	for _, t := range []string{mergeTexts()[2], mergeTexts()[4]} {
 		gs = append(gs, group{name: "three-lifo", lifo: true, reqs: []*rq{
